@@ -126,6 +126,9 @@ func genCorpus(shape string, rng *vh.RNG) *corpus {
 		n = 3500
 		uniq = 12
 		c.crosses["tokens"] = true
+	case "tinybulks": // every document is its own bulk: doc blocks of 48..70 bytes, several starting in one 64-byte window
+		n = 400
+		c.crosses["docblocks"] = true
 	case "hugedict": // one field with > 256 token blocks (> 4 MiB of token bytes): its token-table entries exceed one "portion"
 		n = 75000
 		c.crosses["tokens"], c.crosses["ids"], c.crosses["lids"] = true, true, true
@@ -197,6 +200,14 @@ func genCorpus(shape string, rng *vh.RNG) *corpus {
 			extra = fmt.Sprintf(`,"ex":"%s"`, e)
 		}
 		doc := fmt.Sprintf(`{"service":"%s","level":"%s","pod":"%s","size":%d,"message":"%s %s","n":%d%s}`, svc, lvl, pod, size, w1, w2, i, extra)
+		if shape == "tinybulks" {
+			switch i % 4 {
+			case 0, 1:
+				doc = fmt.Sprintf(`{"n":%d}`, i) // <= 17 bytes of JSON: a block shorter than 64 bytes
+			case 2:
+				doc = fmt.Sprintf(`{"n":%d,"p":"%s"}`, i, strings.Repeat("z", i%9))
+			}
+		}
 		c.docs[k] = docSpec{id: seq.ID{MID: seq.MID(mid), RID: seq.RID(rid)}, doc: []byte(doc), tokens: toks}
 	}
 	c.from, c.to = seq.MID(baseMID), seq.MID(uint64(baseMID)+uint64(n/3+1)*c.step)
@@ -377,6 +388,25 @@ func buildRequests(c *corpus, rng *vh.RNG, quick bool) []request {
 			}
 		}
 	}
+	// every stored id, in insertion order and in descending id order, each asked twice (cold then warm doc-block cache)
+	if c.crosses["docblocks"] {
+		var all []seq.ID
+		for _, d := range c.docs {
+			all = append(all, d.id)
+		}
+		desc := append([]seq.ID{}, all...)
+		sort.Slice(desc, func(a, b int) bool { return seq.Less(desc[b], desc[a]) })
+		asc := append([]seq.ID{}, all...)
+		sort.Slice(asc, func(a, b int) bool { return seq.Less(asc[a], asc[b]) })
+		for pass := 0; pass < 2; pass++ {
+			for li, l := range [][]seq.ID{all, desc, asc} {
+				reqs = append(reqs, request{kind: "fetch", desc: fmt.Sprintf("fetch all ids order#%d pass=%d n=%d", li, pass, len(l)), ids: l})
+				for st := 0; st+3 <= len(l) && st < 60; st += 3 { // neighbours only: few blocks per request
+					reqs = append(reqs, request{kind: "fetch", desc: fmt.Sprintf("fetch 3 neighbours order#%d from=%d pass=%d", li, st, pass), ids: l[st : st+3]})
+				}
+			}
+		}
+	}
 	// fetch lists: present, absent, duplicates, unsorted and sorted
 	n := len(c.docs)
 	for k := 0; k < 6; k++ {
@@ -518,6 +548,38 @@ func (cs *cacheSet) evict() uint64 {
 	return st.BytesReleased
 }
 
+// ingestConcurrent: `writers` goroutines append single-document bulks at the same time (as concurrent bulk requests do).
+func ingestConcurrent(active *frac.Active, docs []docSpec, writers int) error {
+	var wg, wwg sync.WaitGroup
+	errs := make(chan error, writers)
+	for g := 0; g < writers; g++ {
+		wwg.Add(1)
+		go func(g int) {
+			defer wwg.Done()
+			root := insaneJSON.Spawn()
+			defer insaneJSON.Release(root)
+			for k := g; k < len(docs); k += writers {
+				dp := frac.NewDocProvider()
+				dp.Append(docs[k].doc, root, docs[k].id, seq.Tokens(docs[k].tokens...))
+				bd, bm := dp.Provide()
+				wg.Add(1)
+				if err := active.Append(bd, bm, &wg); err != nil {
+					errs <- err
+					return
+				}
+			}
+		}(g)
+	}
+	wwg.Wait()
+	wg.Wait()
+	select {
+	case err := <-errs:
+		return err
+	default:
+		return nil
+	}
+}
+
 func ingest(active *frac.Active, docs []docSpec, batch int) error {
 	root := insaneJSON.Spawn()
 	defer insaneJSON.Release(root)
@@ -549,7 +611,17 @@ func runSysCaseInProcess(c sysCase, dir string) *sysResult {
 	cfg := &frac.Config{SkipSortDocs: c.SkipSort}
 	csA := newCacheSet(0)
 	active := frac.NewActive(base, indexer, readLimiter, csA.docs, csA.sort, cfg)
-	if err := ingest(active, cor.docs, 700); err != nil {
+	batch := 700
+	if c.Shape == "tinybulks" {
+		batch = 1
+	}
+	var ierr error
+	if c.Shape == "tinybulks" && c.CacheKB%2 == 1 {
+		ierr = ingestConcurrent(active, cor.docs, 6) // concurrent writers
+	} else {
+		ierr = ingest(active, cor.docs, batch)
+	}
+	if err := ierr; err != nil {
 		res.Notes = append(res.Notes, "ingest error: "+err.Error())
 		return res
 	}
@@ -574,7 +646,18 @@ func runSysCaseInProcess(c sysCase, dir string) *sysResult {
 		}
 		return fa
 	}
+	var restarted []formAns
 	forms := []formAns{run("active", active, nil)}
+	if c.Shape == "tinybulks" {
+		// the active fraction as a restart would rebuild it: a second Active over the same files, filled by Replay
+		csR := newCacheSet(0)
+		replayed := frac.NewActive(base, indexer, readLimiter, csR.docs, csR.sort, cfg)
+		if err := replayed.Replay(context.Background()); err != nil {
+			res.Mismatches = append(res.Mismatches, sysMismatch{Req: -1, Desc: "Active.Replay", Forms: "replay", A: "ok expected", B: err.Error(), Class: "replay-error"})
+			return res
+		}
+		restarted = []formAns{run("active-replayed", replayed, nil)}
+	}
 	var mq []modelQuery
 	if c.Shape == "small" && c.OnlyReq < 0 {
 		mq = buildModelQueries(active, rng.Fork(), cor)
@@ -642,7 +725,7 @@ func runSysCaseInProcess(c sysCase, dir string) *sysResult {
 		}
 		a := forms[0].ans[i]
 		hit := !strings.HasPrefix(a, "total=0 ids= ") && a != "total=0 ids=" && !strings.HasPrefix(a, "error") && !(r.kind == "fetch" && !strings.Contains(a, "{"))
-		cross := cor.crosses["ids"] || cor.crosses["lids"] || cor.crosses["tokens"] || c.DocBlock < 4096
+		cross := cor.crosses["ids"] || cor.crosses["lids"] || cor.crosses["tokens"] || cor.crosses["docblocks"] || c.DocBlock < 4096
 		res.Cases++
 		if hit && cross {
 			res.Nontrivial++
@@ -654,6 +737,32 @@ func runSysCaseInProcess(c sysCase, dir string) *sysResult {
 		res.Tags["shape="+c.Shape]++
 		if hit {
 			res.Tags["hits"]++
+		}
+		if r.kind == "fetch" { // ground truth: the bytes that were ingested under the id (nil for ids never stored)
+			byID := map[seq.ID][]byte{}
+			for _, d := range cor.docs {
+				byID[d.id] = d.doc
+			}
+			want := make([][]byte, len(r.ids))
+			for k, id := range r.ids {
+				want[k] = byID[id]
+			}
+			ws := canonDocs(want, nil)
+			bad := false
+			for _, f := range forms {
+				if f.ans[i] != ws && !bad {
+					bad = true
+					res.Mismatches = append(res.Mismatches, sysMismatch{Req: i, Desc: r.desc, Forms: "stored/" + f.name, A: trunc(ws), B: trunc(f.ans[i]), Class: "fetch-returns-other-bytes-than-stored:" + f.name})
+				}
+			}
+			if bad {
+				continue
+			}
+		}
+		for _, f := range restarted {
+			if f.ans[i] != a {
+				res.Mismatches = append(res.Mismatches, sysMismatch{Req: i, Desc: r.desc, Forms: "active/" + f.name, A: trunc(a), B: trunc(f.ans[i]), Class: "replayed-active-differs"})
+			}
 		}
 		for _, f := range forms[1:] {
 			if f.ans[i] != a {
@@ -980,6 +1089,9 @@ func crashSite(msg string) (string, string) {
 	case strings.Contains(msg, "timeout"):
 		return "frac/sealed_index.go", "hang"
 	}
+	if strings.Contains(msg, "out of memory") || strings.Contains(msg, "Replay") {
+		return "frac/active.go:Replay", "crash"
+	}
 	return "frac/sealed_index.go", "crash"
 }
 
@@ -987,6 +1099,12 @@ func mismatchSite(m sysMismatch) string {
 	switch {
 	case strings.Contains(m.Class, "earlier-sealed-fraction-changed-by-later-seal"):
 		return "frac/active_sealer.go:writeSealedFraction"
+	case strings.HasPrefix(m.Class, "fetch-returns-other-bytes-than-stored:active"):
+		return "frac/active_index.go:activeDataProvider.Fetch"
+	case strings.HasPrefix(m.Class, "fetch-returns-other-bytes-than-stored"):
+		return "frac/sealed_index.go:sealedDataProvider.Fetch"
+	case m.Class == "replayed-active-differs" || m.Class == "replay-error":
+		return "frac/active.go:Replay"
 	case strings.Contains(m.Class, "active-changed-by-seal"):
 		return "frac/active_sealer.go:writeSealedFraction"
 	case strings.Contains(m.Class, "preloaded-broken-after-active-release"):
@@ -1066,10 +1184,12 @@ func runSystemOracle(o vh.Opts, rng *vh.RNG, rep *vh.Report, tmp string) {
 	}
 	cases = append(cases, sysCase{Shape: "ids2", Seed: int64(rng.U64() >> 2), SkipSort: false, Zstd: 1, DocBlock: 4096, CacheKB: 8, OnlyReq: -1})
 	if o.Thorough() {
-		for i, sh := range []string{"ids-exact", "ids-exact1", "bigdict", "exactdict", "lids64k", "ids2", "bigdict", "manyfields", "manyfields", "hugedict"} {
+		for i, sh := range []string{"ids-exact", "ids-exact1", "bigdict", "exactdict", "lids64k", "ids2", "bigdict", "manyfields", "manyfields", "hugedict", "tinybulks", "tinybulks", "tinybulks"} {
 			cases = append(cases, sysCase{Shape: sh, Seed: int64(rng.U64() >> 2), SkipSort: i%2 == 0, Zstd: zs[i%4], DocBlock: []int{2048, 0, 512}[i%3], CacheKB: []int{4, 16, 1}[i%3], OnlyReq: -1})
 		}
 	} else {
+		cases = append(cases, sysCase{Shape: "tinybulks", Seed: int64(rng.U64() >> 2), SkipSort: true, Zstd: 1, DocBlock: 0, CacheKB: 2, OnlyReq: -1},
+			sysCase{Shape: "tinybulks", Seed: int64(rng.U64() >> 2), SkipSort: false, Zstd: 3, DocBlock: 64, CacheKB: 1, OnlyReq: -1})
 		for i, sh := range []string{"bigdict", "lids64k", "ids-exact", "exactdict", "manyfields", "hugedict"} {
 			cases = append(cases, sysCase{Shape: sh, Seed: int64(rng.U64() >> 2), SkipSort: i%2 == 0, Zstd: zs[(i+1)%4], DocBlock: []int{1024, 0, 256}[i%3], CacheKB: []int{4, 16, 1}[i%3], OnlyReq: -1})
 		}
